@@ -6,6 +6,7 @@ import (
 	"context"
 	"encoding/binary"
 	"fmt"
+	"regexp"
 	"sort"
 	"strings"
 	"time"
@@ -29,6 +30,9 @@ func init() {
 		},
 		Spaces: c13Spaces})
 }
+
+// threads spawned by the library itself (through the rewritten go statements) are named t<N>
+var libThread = regexp.MustCompile(`^t[0-9]+@`)
 
 type hctx struct {
 	done chan struct{}
@@ -114,6 +118,7 @@ type c13Opt struct {
 	blockHandler bool  // S2: handler waits for release; ShutdownContext with a context the environment cancels
 	secondStart  bool  // S3
 	secondShutdown bool
+	fireDeadline   bool // S4: an environment thread lets one pending read deadline expire at any point
 }
 
 func c13Scenario(name string, o c13Opt) *e2x.Scenario {
@@ -233,7 +238,7 @@ func c13Scenario(name string, o c13Opt) *e2x.Scenario {
 					// library spawned (other than one that has just signalled completion and is about to exit) and no open
 					// connection it accepted
 					for _, l := range vsched.Live() {
-						if strings.HasPrefix(l, "t") && !strings.HasSuffix(l, "@wg.Done") && !strings.HasSuffix(l, "@exit") {
+						if libThread.MatchString(l) && !strings.HasSuffix(l, "@wg.Done") && !strings.HasSuffix(l, "@exit") {
 							vsched.Logf("left-goroutine %s", l)
 						}
 					}
@@ -246,6 +251,21 @@ func c13Scenario(name string, o c13Opt) *e2x.Scenario {
 					}
 				}
 				vsched.Logf("%s-returned %v", tag, *err)
+			}
+			if o.fireDeadline {
+				vsched.GoNamed("timer", func() {
+					if pc != nil {
+						vsched.Point("await-read-armed", func() bool { return pc.Reads > 0 || started })
+						if pc.Fire() {
+							vsched.Logf("timer-fired pc")
+						}
+						return
+					}
+					vsched.Point("await-accepted", func() bool { return len(ln.Conns) > 0 || ln.Closed })
+					if len(ln.Conns) > 0 && ln.Conns[0].Fire() {
+						vsched.Logf("timer-fired %s", ln.Conns[0].Name)
+					}
+				})
 			}
 			vsched.GoNamed("shutdown", func() { shutdown("shutdown", &shutErr, &shutRet) })
 			if o.secondShutdown {
@@ -354,6 +374,9 @@ func c13Spaces(c *fw.Ctx) {
 		{"S1/pc/2-clients", c13Opt{transport: "pc", clients: []string{"full", "full"}}, 1, 2},
 		{"S2/tcp/in-flight+ctx", c13Opt{transport: "tcp", clients: []string{"full"}, blockHandler: true}, 1, 2},
 		{"S2/pc/in-flight+ctx", c13Opt{transport: "pc", clients: []string{"full"}, blockHandler: true}, 1, 2},
+		{"S4/tcp/silent-client+read-timeout", c13Opt{transport: "tcp", clients: []string{"silent"}, fireDeadline: true}, 1, 2},
+		{"S4/tcp/1-client+idle-timeout", c13Opt{transport: "tcp", clients: []string{"full"}, fireDeadline: true}, 1, 2},
+		{"S4/pc/1-client+read-timeout", c13Opt{transport: "pc", clients: []string{"full"}, fireDeadline: true}, 1, 2},
 		{"S3/tcp/double-start-double-shutdown", c13Opt{transport: "tcp", secondStart: true, secondShutdown: true}, 2, 3},
 		{"S3/pc/double-start-double-shutdown", c13Opt{transport: "pc", secondStart: true, secondShutdown: true}, 1, 2},
 	}
